@@ -1,6 +1,8 @@
 import QclibModel.Proofs.MixedBits
 import QclibModel.Proofs.MixedPurif
 import QclibModel.Proofs.MixedReject
+import QclibModel.Proofs.PyLemmas
+import QclibModel.Gen.MixedWidth
 /-
   C14 — MixedInitialize: the data register's reduced state is the requested ensemble; invalid
   probability vectors are rejected.  Property theorems only (model: Model/Mixed.lean, ideal objects:
@@ -159,6 +161,25 @@ theorem C14_width (n k : Nat) :
   refine ⟨?_, le_two_pow_clog2 k, fun a h => clog2_le h, two_pow_clog2_pred_lt, clog2_two_pow n⟩
   unfold numQubits
   rw [clog2_two_pow]
+
+/-- **C14 (source tie, widths).**  `Gen.MixedWidth.mixed_num_qubits` / `mixed_num_ctrl` are
+re-translated on every run from the current source of `InitializeMixed._get_num_qubits`
+(`int(ceil(log2(len(params[0]))) + ceil(log2(len(params))))`) and of the statement of
+`MixedInitialize.__init__` that sets `self._num_ctrl_qubits` (`int(ceil(log2(len(params))))`).  For
+every vector length `d ≥ 1` and every number of states `k ≥ 1` they equal the hand model
+`numQubits d k` resp. `clog2 k` of `C14_width`.  An edit of a `ceil`, of an operand or of the sum in
+the source breaks this proof.  (`int(ceil(log2 k))` is translated as the least exponent `a` with
+`k ≤ 2^a`; float agreement is the tied assumption named in `C14_width`.) -/
+theorem C14_width_src (d k : Nat) (hd : 1 ≤ d) (hk : 1 ≤ k) :
+    Gen.MixedWidth.mixed_num_qubits (d : Int) (k : Int) = ((numQubits d k : Nat) : Int)
+    ∧ Gen.MixedWidth.mixed_num_ctrl (k : Int) = ((clog2 k : Nat) : Int) := by
+  have h : ∀ x : Nat, 1 ≤ x → Py.pyLog2Ceil (x : Int) = ((clog2 x : Nat) : Int) := fun x hx =>
+    Py.pyLog2Ceil_eq_of_least x (clog2 x) hx (le_two_pow_clog2 x) (fun _ hb => clog2_le hb)
+  unfold Gen.MixedWidth.mixed_num_qubits Gen.MixedWidth.mixed_num_ctrl numQubits
+  simp only [h d hd, h k hk, Int.natCast_add, and_self]
+
+/-- Non-vacuity: 5 states of 8 amplitudes — 3 + 3 qubits, 3 of them controls. -/
+example : Gen.MixedWidth.mixed_num_qubits 8 5 = 6 ∧ Gen.MixedWidth.mixed_num_ctrl 5 = 3 := by decide
 
 /-! ### Non-vacuity: the hypotheses are satisfiable by concrete, non-trivial instances -/
 
